@@ -273,6 +273,10 @@ class FortranAST:
                 if include_ast.none_scope:
                     if include_ast.inc_scope is None:
                         include_ast.inc_scope = include_ast.none_scope
+                    if parent_scope is include_ast.inc_scope:
+                        # Files including each other outside of any scope, their
+                        # entities are already children of this scope
+                        continue
                     for child in include_ast.inc_scope.children:
                         added_entities.append(child)
                         if parent_scope is not None:
